@@ -322,7 +322,7 @@ pub struct WorkerOutcome {
     pub violations: Vec<Violation>,
     pub last_case: Option<String>,
     pub death: Option<String>,
-    pub hung: Option<&'static str>, // "deadlock" | "busy"
+    pub hung: Option<&'static str>, // "deadlock" | "livelock" | "busy"
     pub stderr_tail: String,
 }
 
@@ -458,15 +458,23 @@ fn run_one(
         report: Option<Report>,
         violations: Vec<Violation>,
         last_case: Option<String>,
+        last_case_at: Instant,
+        case_durations_ms: Vec<u64>,
     }
-    let acc = Arc::new(Mutex::new(Acc { report: None, violations: vec![], last_case: None }));
+    let acc = Arc::new(Mutex::new(Acc { report: None, violations: vec![], last_case: None, last_case_at: Instant::now(), case_durations_ms: vec![] }));
     let acc2 = acc.clone();
     let t_out = std::thread::spawn(move || {
         let rd = BufReader::new(stdout);
         for line in rd.lines() {
             let Ok(line) = line else { break };
             if let Some(c) = line.strip_prefix("CASE ") {
-                acc2.lock().unwrap().last_case = Some(c.to_string());
+                let mut a = acc2.lock().unwrap();
+                if a.last_case.is_some() {
+                    let d = a.last_case_at.elapsed().as_millis() as u64;
+                    a.case_durations_ms.push(d);
+                }
+                a.last_case_at = Instant::now();
+                a.last_case = Some(c.to_string());
             } else if let Some(v) = line.strip_prefix("VIOL ") {
                 if let Ok(j) = Json::parse(v) {
                     acc2.lock().unwrap().violations.push(Violation {
@@ -523,7 +531,21 @@ fn run_one(
                 hung = Some("deadlock");
                 dump_stacks(pid, &errbuf);
             } else {
-                hung = Some("busy");
+                // bounded progress: the case that is running has been running for at
+                // least two minutes AND at least 2000 times longer than the median of
+                // the (>= 20) cases this worker completed before it => it does not
+                // terminate (busy loop). Anything less is "still busy" = inconclusive.
+                let a = acc.lock().unwrap();
+                let mut d = a.case_durations_ms.clone();
+                d.sort_unstable();
+                let cur = a.last_case_at.elapsed().as_millis() as u64;
+                if d.len() >= 20 && case0 == case1 && cur >= 120_000 && cur >= 2000 * d[d.len() / 2].max(1) {
+                    hung = Some("livelock");
+                    drop(a);
+                    dump_stacks(pid, &errbuf);
+                } else {
+                    hung = Some("busy");
+                }
             }
             let _ = child.kill();
             break child.wait().ok();
@@ -714,15 +736,17 @@ pub fn run_check(meta: CheckMeta, seed: u64, tier: Tier, replay: Option<&str>) -
                 all_viol.push((wid.clone(), v));
             }
             if let Some(h) = o.hung {
-                if h == "deadlock" {
+                if h == "deadlock" || h == "livelock" {
                     let case = o.last_case.clone().unwrap_or_else(|| "?".into());
                     all_viol.push((
                         wid.clone(),
                         Violation {
-                            signature: format!("{}/deadlock part={}", meta.id, o.part),
-                            what: format!(
-                                "worker quiescent (no CPU, no progress) with case outstanding: {case}"
-                            ),
+                            signature: format!("{}/{h} part={}", meta.id, o.part),
+                            what: if h == "deadlock" {
+                                format!("worker quiescent (no CPU, no progress) with case outstanding: {case}")
+                            } else {
+                                format!("worker spinning without progress (one case running > 2 min and > 2000x the median case time): {case}")
+                            },
                             witness: Json::obj()
                                 .set("last_case", case)
                                 .set("stderr_tail", o.stderr_tail.clone()),
@@ -856,7 +880,8 @@ pub fn run_check(meta: CheckMeta, seed: u64, tier: Tier, replay: Option<&str>) -
         .set("distinct_nontrivial", distinct)
         .set("rule", meta.rule)
         .set("samples", Json::Arr(total.samples.clone()))
-        .set("exhaustive", false)
+        // true only when every worker enumerated the finite space of the check completely
+        .set("exhaustive", total.counters.get("whole_space_enumerated").copied().unwrap_or(0) > 0 && total.inconclusive.is_empty())
         .set("counters", total.counters.clone())
         .set(
             "inconclusive",
